@@ -1,4 +1,5 @@
 import Proofs.BatchLemmas
+import Proofs.Precheck
 /-
   C03 — No overdraft; batches are all-or-nothing.
 -/
@@ -33,6 +34,35 @@ theorem no_overspend {P : Params} {db : DB} {h : Nat} {rates avgs : Option TMap}
     (hv : verdict P db h rates avgs (t0 :: rest) = .apply) :
     ∀ t ∈ t0 :: rest, (t.inAmount : Int) ≤ db.bal t0.inAddr t.inType :=
   verdict_apply_funded hv
+
+/-- **`precheck_sound`: the in-memory simulation before any write agrees with the writes.** If
+    both passes of `applyTransactionBatch` accept a batch (all its inputs name one address, as
+    `Validate` guarantees; not the burn address, which nobody can sign for), then `recordBatch` —
+    which re-checks every debit against the database — never meets an insufficient balance,
+    however the transactions of the batch interact: several inputs drawing on one balance, credits
+    arriving mid-batch from conversions and from outputs back to the sender, PEG requests whose
+    output is deferred to the bank pass (fix eb58d6d). Any failure it can end in is an SQL-level
+    one that fails the whole block. So no batch spends more of an asset than its input address
+    holds at the moment it executes, and an accepted batch is applied completely. -/
+theorem precheck_sound (P : Params) (db : DB) (h : Nat) (hash : Hash) (rates avgs : Option TMap) (t0 : Tx) (rest : List Tx)
+    (hv : verdict P db h rates avgs (t0 :: rest) = .apply)
+    (hall : ∀ t ∈ rest, t.inAddr = t0.inAddr) (hb : t0.inAddr ≠ burnAddrAt P h) :
+    ∀ e s', recordBatch P h hash rates avgs (t0 :: rest) db = .fail e s' → e ≠ .uncaught "insufficient balance" :=
+  recordBatch_never_short P h hash rates avgs t0.inAddr hb (t0 :: rest) db
+    (fun t ht => by
+      rcases List.mem_cons.1 ht with rfl | ht
+      · rfl
+      · exact hall t ht)
+    (verdict_apply_pass2 hv)
+
+/-- one step of the cumulative pass: the transaction's input is covered by what the address holds
+    after the earlier transactions of the same batch, and the balance carried forward is the old
+    one minus the input plus what this transaction credits back to the address -/
+theorem cumulative_pass_step {P : Params} {h : Nat} {rates avgs : Option TMap} {bal : Ticker → Int} {t : Tx} {rest : List Tx}
+    (hp : pass2 P h rates avgs bal (t :: rest) = none) :
+    (t.inAmount : Int) ≤ bal t.inType ∧ ∃ c, creditOf P h rates avgs t = some c ∧
+      pass2 P h rates avgs (fun x => bal x - (if x = t.inType then (t.inAmount : Int) else 0) + c x) rest = none :=
+  pass2_cons_none hp
 
 /-- the debit itself re-checks: `SubFromBalance` never writes when the balance is short -/
 theorem debit_guarded (P : Params) (a : Addr) (t : Ticker) (v : Nat) (s : DB)
@@ -71,3 +101,5 @@ end Pegnet.C03
 #print axioms Pegnet.C03.no_overspend
 #print axioms Pegnet.C03.debit_guarded
 #print axioms Pegnet.C03.failed_block_changes_nothing
+#print axioms Pegnet.C03.precheck_sound
+#print axioms Pegnet.C03.cumulative_pass_step
